@@ -1,4 +1,5 @@
 import Orca.Lemmas.SpecialFlat
+import Orca.Lemmas.StackSpec
 /-!
 # C22 — special-mode injections are never silently lost
 
@@ -120,6 +121,43 @@ example :
     go { mkI "loop" .loop with blockEntry := ["P"] } = ["a", "block", "loop", "P", "b", "if", "c", "end", "end", "d", "end", "end"]
     ∧ go { mkI "loop" .loop with blockExit := ["P"] } = ["a", "block", "loop", "b", "if", "c", "end", "P", "end", "d", "end", "end"]
     ∧ go { mkI "loop" .loop with semAfter := ["P"] } = ["a", "block", "loop", "b", "if", "c", "end", "end", "P", "d", "end", "end"] := by
+  decide
+
+/-! ### every plan of block-level probes -/
+
+/-- **The resolver is a stack machine.** For every function body and every plan that uses `before` / `after` anywhere and
+    block-entry / block-exit / semantic-after on constructs — any number of probes, any nesting, several on one construct — the
+    depth-keyed tables of `resolve_special_instrumentation` behave as a stack of frames, one per open construct, and the encoded body
+    is the one the stack machine `specRun` defines: entry code behind the opener (behind its `after` code), exit code in front of the
+    matching `end` (for an `if`: in front of its `else`, or of its `end` when there is none), semantic-after code behind the
+    matching `end`, everything in injection order; no local is added. (`specRun … = some out` says the body is well nested.) -/
+theorem c22_resolver_is_a_stack_machine (f : Func) (hsp : f.hasSpecial = true) (hentry : f.entry = []) (hexit : f.exit = [])
+    (hp : ∀ x ∈ f.body, Plain x) (out : List Tok) (hs : specRun (f.body.length - 1) 0 [{}] f.body = some out) :
+    lower f = (out, f.added) :=
+  lower_eq_spec f hsp hentry hexit hp out hs
+
+/-- **…and it loses nothing**: every token of every `before` list and of every block-entry, block-exit and semantic-after list on a
+    construct is in the encoded function — the positive half of C22 for every plan in this scope, not only single probes. -/
+theorem c22_no_block_level_probe_is_lost (f : Func) (hsp : f.hasSpecial = true) (hentry : f.entry = []) (hexit : f.exit = [])
+    (hp : ∀ x ∈ f.body, Plain x) (out : List Tok) (hs : specRun (f.body.length - 1) 0 [{}] f.body = some out) :
+    ∀ x ∈ f.body, (∀ t ∈ x.before, t ∈ (lower f).1)
+      ∧ (x.kind.isBlockStyle = true → ∀ t, t ∈ x.blockEntry ∨ t ∈ x.blockExit ∨ t ∈ x.semAfter → t ∈ (lower f).1) :=
+  lower_keeps_all f hsp hentry hexit hp out hs
+
+/-! non-vacuity (decided): five probes of three modes on a block, an `if` and its `else`, nested; the stack machine accepts the body
+    and says where each goes -/
+set_option maxRecDepth 8000 in
+example :
+    let body : List Instr :=
+      [{ mkI "block" .block with blockEntry := ["E1"], blockExit := ["X1"], semAfter := ["A1"] },
+       { mkI "if" .if_ with blockExit := ["X2"], before := ["B"] },
+       mkI "c" .other,
+       { mkI "else" .else_ with blockEntry := ["E2"], blockExit := ["X3"] },
+       mkI "d" .other, mkI "end" .end_, mkI "end" .end_, mkI "end" .end_]
+    specRun 7 0 [{}] body
+      = some ["block", "E1", "B", "if", "c", "X2", "else", "E2", "d", "X3", "end", "X1", "end", "A1", "end"]
+    ∧ (lower { body := body, hasSpecial := true }).1
+      = ["block", "E1", "B", "if", "c", "X2", "else", "E2", "d", "X3", "end", "X1", "end", "A1", "end"] := by
   decide
 
 end Orca.Lower
